@@ -196,7 +196,9 @@ func c13Specs() []*edt.Spec {
 				return ""
 			},
 		},
-		termSpec("primitives/merlin", "(*Transcript).Clone", nil, "&new(agg(.s=(Strobe.Clone($t.s))))"),
+		// the clone is a copy of the whole STROBE state: through Strobe.Clone, or as a value copy of the
+		// struct (TYPE-clone decides that the copied types are plain data)
+		termSpecAny("primitives/merlin", "(*Transcript).Clone", nil, "&new(agg(.s=(Strobe.Clone($t.s))))", "&new($t)", "&new(agg(.s=($t.s)))"),
 		termSpec("primitives/merlin", "(*Transcript).BuildRng", nil, "&new(agg(.s=(Strobe.Clone($t.s))))"),
 		// ---- STROBE operations -----------------------------------------------------------------
 		strobeOpSpec("(*Strobe).AD", strobeOpaque, "operate(2, $data, $more)"),
@@ -432,8 +434,8 @@ func strobeOpSpec(fn string, opaque []string, want string) *edt.Spec {
 		Pkg: "internal/strobe", Func: fn, Opaque: opaque, MinPaths: 1, Vars: map[string]string{},
 		Classify: func(p *edt.Path, out string, e *edt.Env) string {
 			got := strobeOps(p, "Strobe.")
-			if len(got) == 1 && got[0] == want {
-				return "as-specified"
+			if len(got) == 1 && (got[0] == want || strings.Replace(got[0], "cat($data)", "$data", 1) == want) {
+				return "as-specified" // (a private copy made with append([]byte(nil), data...) renders as cat($data))
 			}
 			return ""
 		},
